@@ -608,3 +608,119 @@ Proof.
   exact (pjents_views bs Hleg [] []).
 Qed.
 Print Assumptions roundtrip_po_junk.
+
+(* ---- ONE garbage region between two block lists ---------------------------------------------------------- *)
+Definition pwith_garbage (bs1 : list pblock) (g : str) (bs2 : list pblock) : list pjblock :=
+  map PJB bs1 ++ PJG g :: map PJB bs2.
+
+Lemma pjfile_text_app : forall x y, pjfile_text (x ++ y) = pjfile_text x ++ pjfile_text y.
+Proof. intros. unfold pjfile_text. rewrite map_app, concat_app. reflexivity. Qed.
+
+Lemma pjfile_text_PJB : forall bs, pjfile_text (map PJB bs) = pfile_text bs.
+Proof. induction bs as [|b bs IH]; [reflexivity|]. rewrite map_cons, pjfile_text_cons, IH. reflexivity. Qed.
+
+Lemma pj_of_PJB : forall bs, pjrecords_of (map PJB bs) = C02BlocksPoVal.precords_of bs /\
+  pjcomments_of (map PJB bs) = C02BlocksPoVal.pcomments_of bs.
+Proof.
+  induction bs as [|[x|cs|cs iw ctxt idl w2 strl] bs [I1 I2]]; [repeat split| | |];
+    cbn [map pjrecords_of pjcomments_of C02BlocksPoVal.precords_of C02BlocksPoVal.pcomments_of];
+    rewrite ?I1, ?I2; repeat split.
+Qed.
+
+Lemma pjrecords_app : forall x y, pjrecords_of (x ++ y) = pjrecords_of x ++ pjrecords_of y.
+Proof.
+  induction x as [|[[x0|cs|cs iw ctxt idl w2 strl]|g] x IH]; intros y; simpl; rewrite ?IH; reflexivity.
+Qed.
+Lemma pjcomments_app : forall x y, pjcomments_of (x ++ y) = pjcomments_of x ++ pjcomments_of y.
+Proof.
+  induction x as [|[[x0|cs|cs iw ctxt idl w2 strl]|g] x IH]; intros y; simpl; rewrite ?IH; reflexivity.
+Qed.
+
+(* the spans of the Junk entries *)
+Fixpoint pjspans (off w : nat) (bs : list pjblock) : list span :=
+  match bs with
+  | [] => []
+  | PJB (PBlank x) :: rest => pjspans off (w + length x) rest
+  | PJB (PComment cs) :: rest => pjspans (off + w + length (ctext cs)) 0 rest
+  | PJB (PEntity cs iw ctxt idl w2 strl) :: rest =>
+      pjspans (off + w + length (ctext cs) + length iw + length (ctxt_text ctxt) + 5 + length (items_text idl) +
+               length w2 + 6 + length (items_text strl)) 0 rest
+  | PJG g :: rest => (off + w, off + w + length g) :: pjspans (off + w + length g) 0 rest
+  end.
+
+Lemma pjents_junk : forall bs off w,
+  filter (C02BlocksPoVal.is_kind KJunk) (pjents off w bs) = map mk_junk (pjspans off w bs).
+Proof.
+  induction bs as [|[[x|cs|cs iw ctxt idl w2 strl]|g] rest IH]; intros off w;
+    cbn [pjents pjspans]; rewrite ?filter_app, ?C02BlocksPoVal.flush_no by discriminate;
+    cbn [app filter C02BlocksPoVal.is_kind mk_comment mk_junk e_kind map]; rewrite ?IH; reflexivity.
+Qed.
+
+Lemma pjspans_PJB : forall bs off w, pjspans off w (map PJB bs) = [].
+Proof.
+  induction bs as [|[x|cs|cs iw ctxt idl w2 strl] bs IH]; intros off w; cbn [map pjspans]; auto.
+Qed.
+
+Lemma pjspans_prefix : forall bs off w R,
+  exists off' w', off' + w' = off + w + length (pfile_text bs) /\
+                  pjspans off w (map PJB bs ++ R) = pjspans off' w' R.
+Proof.
+  induction bs as [|b bs IH]; intros off w R.
+  - exists off, w. split; [simpl; lia|reflexivity].
+  - rewrite pfile_text_cons, app_length.
+    destruct b as [x|cs|cs iw ctxt idl w2 strl]; cbn [map app pjspans ptext].
+    + destruct (IH off (w + length x) R) as [o [w' [E1 E2]]]. exists o, w'. split; [lia|exact E2].
+    + destruct (IH (off + w + length (ctext cs)) 0 R) as [o [w' [E1 E2]]]. exists o, w'.
+      split; [lia|exact E2].
+    + destruct (IH (off + w + length (ctext cs) + length iw + length (ctxt_text ctxt) + 5 +
+                    length (items_text idl) + length w2 + 6 + length (items_text strl)) 0 R)
+        as [o [w' [E1 E2]]].
+      exists o, w'. split; [|exact E2]. unfold msg_text. rewrite !app_length. simpl. lia.
+Qed.
+
+(* a file printed from two block lists with ONE garbage region between them: every message (with
+   its values and attached comment) and every standalone comment is recovered unchanged, and
+   there is exactly one Junk entry, whose span is exactly the region *)
+Theorem po_junk_one_region : forall (bs1 : list pblock) (g : str) (bs2 : list pblock),
+  Forall legal_pblock bs1 -> legal_pgarbage g = true -> Forall legal_pblock bs2 ->
+  pjadjacent_ok (pwith_garbage bs1 g bs2) ->
+  let s := pfile_text bs1 ++ g ++ pfile_text bs2 in
+  let p := length (pfile_text bs1) in
+  exists es, walk_po s = Ok es /\
+    map (fun e => (po_value_at s (fst (e_span e)), option_map (C02BlocksPoVal.span_text' s) (e_pre e)))
+        (filter (C02BlocksPoVal.is_kind KEntity) es) =
+      map (fun r => (Ok (fst r), snd r)) (C02BlocksPoVal.precords_of bs1 ++ C02BlocksPoVal.precords_of bs2) /\
+    map (fun e => C02BlocksPoVal.span_text' s (e_span e)) (filter (C02BlocksPoVal.is_kind KComment) es) =
+      C02BlocksPoVal.pcomments_of bs1 ++ C02BlocksPoVal.pcomments_of bs2 /\
+    filter (C02BlocksPoVal.is_kind KJunk) es = [mk_junk (p, p + length g)] /\
+    slice s p (p + length g) = g.
+Proof.
+  intros bs1 g bs2 H1 Hg H2 Hadj s p.
+  assert (Hleg : Forall legal_pjblock (pwith_garbage bs1 g bs2)).
+  { unfold pwith_garbage. apply Forall_app. split; [|constructor; [exact Hg|]];
+      rewrite Forall_map; assumption. }
+  assert (Es : pjfile_text (pwith_garbage bs1 g bs2) = s).
+  { unfold pwith_garbage, s. rewrite pjfile_text_app, pjfile_text_cons, !pjfile_text_PJB. reflexivity. }
+  exists (pjentries_of (pwith_garbage bs1 g bs2)).
+  pose proof (blocks_po_junk _ Hleg Hadj) as Hw. rewrite Es in Hw.
+  destruct (pjents_views _ Hleg [] []) as [V1 [V2 _]]. cbn [app length] in V1, V2.
+  rewrite Es in V1, V2. fold (pjentries_of (pwith_garbage bs1 g bs2)) in V1, V2.
+  destruct (pj_of_PJB bs1) as [A1 A2]. destruct (pj_of_PJB bs2) as [B1 B2].
+  split; [exact Hw|]. split; [|split; [|split]].
+  - rewrite V1. unfold pwith_garbage. rewrite pjrecords_app. cbn [pjrecords_of]. rewrite A1, B1. reflexivity.
+  - rewrite V2. unfold pwith_garbage. rewrite pjcomments_app. cbn [pjcomments_of]. rewrite A2, B2. reflexivity.
+  - unfold pjentries_of. rewrite pjents_junk. unfold pwith_garbage.
+    destruct (pjspans_prefix bs1 0 0 (PJG g :: map PJB bs2)) as [o [w' [E1 E2]]].
+    rewrite E2. cbn [pjspans]. rewrite pjspans_PJB. cbn [map]. simpl in E1. rewrite E1. reflexivity.
+  - unfold s, p. apply slice_mid.
+Qed.
+Print Assumptions po_junk_one_region.
+
+Example pjx_one_region :
+  let bs1 := [px_e1] in let g := A [106; 117; 110; 107; 32; 116; 101; 120; 116; 10] in let bs2 := [px_e2; px_b; px_e3] in
+  Forall legal_pblock bs1 /\ legal_pgarbage g = true /\ Forall legal_pblock bs2 /\
+  pjadjacent_ok (pwith_garbage bs1 g bs2) /\ length g = 10.
+Proof.
+  split; [repeat constructor|]. split; [reflexivity|]. split; [repeat constructor|].
+  split; [vm_compute; reflexivity|]. reflexivity.
+Qed.
